@@ -184,6 +184,7 @@ CHECKS = {
     "C09": {
         "stages": [
             st("main", "rel", [4, 10], [240, 900], watchdog_factor=2),
+            st("dbgassert", "relda", [1, 3], [120, 400], shards=4, watchdog_factor=2),
             st("avx2", "avx2", [0, 7], [0, 900], thorough_only=True, watchdog_factor=2),
             st("asan", "asan", [0, 3], [0, 600], thorough_only=True, watchdog_factor=2),
         ],
